@@ -431,6 +431,36 @@ def reads_with_flag(ctx):
                 evid = [x for x in conj if not any(
                     y['k'] == 'bin' and y['op'] == '&' and cu.const_of(cu.strip_casts(f, f.kid(y, 1))) in (sm, fast)
                     for y in f.walk(x))]
+                # the two flag tests may be named by a local (`one_match_suffices = fast && single`):
+                # the evidence then stands next to the uses of that local
+                par_ = f.parent(top)
+                while par_ is not None and par_['k'] == 'cast':
+                    par_ = f.parent(par_)
+                bname = None
+                if par_ is not None and par_['k'] == 'decl':
+                    bname = par_['name']
+                elif par_ is not None and par_['k'] == 'bin' and par_['op'] == '=':
+                    l_ = cu.strip_casts(f, f.kid(par_, 0))
+                    bname = l_['name'] if l_ is not None and l_['k'] == 'ref' else None
+                if bname is not None and not evid:
+                    for u in f.all_nodes():
+                        if u['k'] != 'ref' or u['name'] != bname:
+                            continue
+                        t2 = None
+                        for a in f.ancestors(u):
+                            if a['k'] == 'bin' and a['op'] == '&&':
+                                t2 = a
+                            elif a['k'] not in ('cast', 'paren', 'un'):
+                                break
+                        if t2 is None:
+                            continue
+                        st3 = [t2]
+                        while st3:
+                            x = cu.strip_casts(f, st3.pop())
+                            if x is not None and x['k'] == 'bin' and x['op'] == '&&':
+                                st3.extend([f.kid(x, 1), f.kid(x, 0)])
+                            elif x is not None and not (x['k'] == 'ref' and x['name'] == bname):
+                                evid.append(x)
                 bad = []
                 for x in evid:
                     dis, st2 = [], [x]
@@ -445,6 +475,8 @@ def reads_with_flag(ctx):
                         m = None
                         if y['k'] == 'bin' and y['op'] == '!=' and cu.const_of(cu.strip_casts(f, f.kid(y, 1))) == 0:
                             m = cu.strip_casts(f, f.kid(y, 0))
+                        elif y['k'] == 'bin' and y['op'] == '!=' and cu.const_of(cu.strip_casts(f, f.kid(y, 0))) == 0:
+                            m = cu.strip_casts(f, f.kid(y, 1))
                         elif y['k'] == 'member':
                             m = y
                         good = False
